@@ -11,7 +11,7 @@ Definition with_header (k v : string) : list header := good_request ++ [(s2z k, 
 Definition without (k : string) : list header :=
   filter (fun h => negb (zlist_eqb (fst h) (s2z k))) good_request.
 Definition trailers_ok : frame := FTrailers 0 None.
-Definition noeof (c : card) (x : extk) : env := mkE c 1 false false x None false.
+Definition noeof (c : card) (x : extk) : env := mkE c 1 false false x None proto_subtype false.
 
 (* a streaming handler: recv, headers, two messages around a sleep, return *)
 Definition p_stream : prog := mkP [Recv; SendInitial false; SendMessage false; Sleep; SendMessage false] (Fin Return) Honour.
@@ -20,7 +20,7 @@ Example ex_stream_out :
 Proof. vm_compute. reflexivity. Qed.
 Example ex_stream_hyps :
   let r := run_call known_paths good_request (std_env SS ENone) p_stream in
-  validate known_paths good_request = VAccept TNone /\ r_end r <> KHang /\ reset_kind (r_end r) = false /\
+  validate proto_subtype known_paths good_request = VAccept TNone /\ r_end r <> KHang /\ reset_kind (r_end r) = false /\
   silent_exit SS (r_pre r) (exit_exn (r_end r)) = false /\ returned_normally (r_end r) = true /\
   trail_done (r_pre r) = false /\ cancel_done (r_pre r) = false /\ accepted (r_out r) = true /\
   final_status (r_out r) = Some (0, None).
@@ -69,7 +69,7 @@ Proof. vm_compute. repeat split. Qed.
 Example ex_deadline_swallowed :
   let hs := with_header "grpc-timeout" "100S" in
   let r := run_call known_paths hs (noeof SU ENone) (mkP [Recv; Recv] (Fin Return) (Swallow RaiseBase)) in
-  validate known_paths hs = VAccept TValid /\ r_end r = KSwallowed CDeadline RaiseBase /\
+  validate proto_subtype known_paths hs = VAccept TValid /\ r_end r = KSwallowed CDeadline RaiseBase /\
   deadline_kind (r_end r) = true /\ trail_done (r_pre r) = false /\ cancel_done (r_pre r) = false /\
   r_out r = [FHeaders 200 true (Some 4) None true; FRst] /\ r_results r = [RMsg; RCancelled].
 Proof. vm_compute. repeat split. Qed.
@@ -77,7 +77,7 @@ Proof. vm_compute. repeat split. Qed.
 (* deadline falls into the second Sleep of a streaming handler *)
 Example ex_deadline_in_sleep :
   let hs := with_header "grpc-timeout" "23436u" in
-  let r := run_call known_paths hs (mkE SS 1 false true ENone (Some 1%nat) false)
+  let r := run_call known_paths hs (mkE SS 1 false true ENone (Some 1%nat) proto_subtype false)
              (mkP [Sleep; SendMessage false; Sleep; SendMessage false] (Fin Return) Honour) in
   r_end r = KCancelled CDeadline /\ r_out r = [resp_headers; FData; FTrailers 4 None].
 Proof. vm_compute. repeat split. Qed.
@@ -110,28 +110,28 @@ Proof. vm_compute. repeat split. Qed.
 
 (* refused requests: the inputs of the repaired defect D3, and one per check *)
 Example ex_no_path :
-  validate known_paths (without ":path") = VAbort 4 200 (Some 12) (Some (s2z "Method not found")).
+  validate proto_subtype known_paths (without ":path") = VAbort 4 200 (Some 12) (Some (s2z "Method not found")).
 Proof. vm_compute. reflexivity. Qed.
-Example ex_no_method : validate known_paths (without ":method") = VAbort 0 405 None None.
+Example ex_no_method : validate proto_subtype known_paths (without ":method") = VAbort 0 405 None None.
 Proof. vm_compute. reflexivity. Qed.
 Example ex_bad_bin :
-  validate known_paths (with_header "x-bin" "A") = VAbort 6 200 (Some 2) (Some (s2z "Invalid metadata")).
+  validate proto_subtype known_paths (with_header "x-bin" "A") = VAbort 6 200 (Some 2) (Some (s2z "Invalid metadata")).
 Proof. vm_compute. reflexivity. Qed.
 Example ex_bad_timeout :
-  validate known_paths (with_header "grpc-timeout" "5x") = VAbort 5 200 (Some 2) (Some (s2z "Invalid grpc-timeout header")).
+  validate proto_subtype known_paths (with_header "grpc-timeout" "5x") = VAbort 5 200 (Some 2) (Some (s2z "Invalid grpc-timeout header")).
 Proof. vm_compute. reflexivity. Qed.
 Example ex_json :
-  validate known_paths (good_request ++ [(s2z "content-type", s2z "application/grpc+json")])
+  validate proto_subtype known_paths (good_request ++ [(s2z "content-type", s2z "application/grpc+json")])
   = VAbort 2 415 (Some 2) (Some (s2z "Unacceptable content-type header")).
 Proof. vm_compute. reflexivity. Qed.
-Example ex_no_te : validate known_paths (without "te") = VAbort 3 400 (Some 2) (Some te_msg).
+Example ex_no_te : validate proto_subtype known_paths (without "te") = VAbort 3 400 (Some 2) (Some te_msg).
 Proof. vm_compute. reflexivity. Qed.
 Example ex_two_defects_first_wins :
-  validate known_paths (filter (fun h => negb (zlist_eqb (fst h) (s2z "te"))) (with_header ":path" "/nope"))
+  validate proto_subtype known_paths (filter (fun h => negb (zlist_eqb (fst h) (s2z "te"))) (with_header ":path" "/nope"))
   = VAbort 3 400 (Some 2) (Some te_msg).
 Proof. vm_compute. reflexivity. Qed.
 (* D7: a deadline that has expired on arrival *)
-Example ex_expired : validate known_paths (with_header "grpc-timeout" "0n") = VAccept TExpired.
+Example ex_expired : validate proto_subtype known_paths (with_header "grpc-timeout" "0n") = VAccept TExpired.
 Proof. vm_compute. reflexivity. Qed.
 Example ex_expired_out :
   r_out (run_call known_paths (with_header "grpc-timeout" "0n") (std_env UU ENone) p_stream)
@@ -144,7 +144,7 @@ Proof. vm_compute. repeat split. Qed.
 
 (* rendering: the header lists as built in server.py *)
 Example ex_render_trailers_only :
-  render (FHeaders 200 true (Some 12) (Some (s2z "m")) true) =
+  render proto_subtype (FHeaders 200 true (Some 12) (Some (s2z "m")) true) =
   Some ([(s2z ":status", s2z "200"); (s2z "content-type", s2z "application/grpc+proto");
          (s2z "grpc-status", s2z "12"); (s2z "grpc-message", s2z "m")], true).
 Proof. vm_compute. reflexivity. Qed.
@@ -160,7 +160,7 @@ Proof. vm_compute. repeat split. Qed.
 Example ex_own_timeout :
   let hs := with_header "grpc-timeout" "100S" in
   let r := run_call known_paths hs (std_env UU ENone) (mkP [Recv; SendMessage false] (Fin (RaiseException XTimeout)) Honour) in
-  validate known_paths hs = VAccept TValid /\ r_end r = KFin (RaiseException XTimeout) /\
+  validate proto_subtype known_paths hs = VAccept TValid /\ r_end r = KFin (RaiseException XTimeout) /\
   trail_done (r_pre r) = false /\ cancel_done (r_pre r) = false /\
   r_out r = [resp_headers; FData; FTrailers 2 (Some internal_msg)].
 Proof. vm_compute. repeat split. Qed.
@@ -193,13 +193,34 @@ Proof. vm_compute. repeat split. Qed.
 (* a deadline that has expired on arrival while the transport is paused: the handler is not called, the
    DEADLINE_EXCEEDED trailers go out as soon as the environment resumes writing -- for every cardinality *)
 Example ex_expired_paused :
-  forallb (fun c => match r_out (run_call known_paths (with_header "grpc-timeout" "0n") (mkE c 1 false false ENone None true) p_stream)
+  forallb (fun c => match r_out (run_call known_paths (with_header "grpc-timeout" "0n") (mkE c 1 false false ENone None proto_subtype true) p_stream)
                     with [FHeaders 200 true (Some 4) None true; FRst] => true | _ => false end) [UU; US; SU; SS] = true.
 Proof. vm_compute. reflexivity. Qed.
 
 (* transport paused from the start, valid request: the first sending call waits; the deadline ends it *)
 Example ex_paused_from_start :
-  let r := run_call known_paths (with_header "grpc-timeout" "100S") (mkE UU 1 false true ENone None true)
+  let r := run_call known_paths (with_header "grpc-timeout" "100S") (mkE UU 1 false true ENone None proto_subtype true)
              (mkP [Recv; SendMessage false] (Fin Return) Honour) in
   r_results r = [RMsg; RCancelled] /\ r_out r = [FHeaders 200 true (Some 4) None true].
 Proof. vm_compute. repeat split. Qed.
+
+(* a server whose codec is not the proto one (content subtype "json"): the bare application/grpc means +proto and
+   is refused with 415 / UNKNOWN; its own subtype is accepted and every response shape carries
+   application/grpc+json *)
+Definition json : list Z := s2z "json".
+Example ex_json_server_refuses_bare :
+  validate json known_paths good_request = VAbort 2 415 (Some 2) (Some (s2z "Unacceptable content-type header")) /\
+  validate json known_paths (request_with (s2z "application/grpc+proto"))
+    = VAbort 2 415 (Some 2) (Some (s2z "Unacceptable content-type header")) /\
+  validate json known_paths (request_with (s2z "application/grpc+json")) = VAccept TNone /\
+  validate proto_subtype known_paths (request_with (s2z "application/grpc+json"))
+    = VAbort 2 415 (Some 2) (Some (s2z "Unacceptable content-type header")).
+Proof. vm_compute. repeat split. Qed.
+Example ex_json_server_trailers_only :
+  let e := mkE UU 1 false true ENone None json false in
+  let r := run_call known_paths (request_with (s2z "application/grpc+json")) e
+             (mkP [Recv] (Fin (RaiseGRPC 5 (Some (s2z "nf")))) Honour) in
+  map (render json) (r_out r) =
+  [Some ([(s2z ":status", s2z "200"); (s2z "content-type", s2z "application/grpc+json");
+          (s2z "grpc-status", s2z "5"); (s2z "grpc-message", s2z "nf")], true)].
+Proof. vm_compute. reflexivity. Qed.
